@@ -388,7 +388,7 @@ func TestC12(t *testing.T) {
 	if !complete {
 		return
 	}
-	c12Rand.rapidCheck(t, pickTier(300, 4000), func(rt *rapid.T) c12Case {
+	c12Rand.rapidCheck(t, pickTier(300, 12000), func(rt *rapid.T) c12Case {
 		c := rapid.SampledFrom(all).Draw(rt, "cfg")
 		if c.TLS == "implicit" && rapid.Bool().Draw(rt, "upgraded") {
 			c.TLS = "upgraded"
